@@ -1201,12 +1201,21 @@ peg::parser! {
             }
 
         pub(crate) rule literal_array_element() -> (Option<String>, String) =
-            "[" inner:$((!"]" [_])*) "]=" value:$([_]*) {
+            "[" inner:$(array_key_piece()*) "]=" value:$([_]*) {
                 (Some(inner.to_owned()), value.to_owned())
             } /
             value:$([_]+) {
                 (None, value.to_owned())
             }
+
+        // N.B. A `]` inside quotes or after a backslash is part of the key (`["a]b"]=v`), not
+        // its end.
+        rule array_key_piece() -> () =
+            "\\" [_] {} /
+            "\"" ("\\" [_] / !"\"" [_])* "\"" {} /
+            "$'" ("\\" [_] / !"'" [_])* "'" {} /
+            "'" (!"'" [_])* "'" {} /
+            !"]" [_] {}
 
         rule assignment_name() -> ast::AssignmentName =
             aen:array_element_name() {
